@@ -9,14 +9,18 @@
      - content: exactly the input elements, in order, once each; closes when the input closes; no panic;
        no deadlock (only the pacer's timer can be what everybody waits for);
      - C13_tokens_rate: the pacer pushes at most ops tokens per interval counted from the start:
-       tokens pushed by time t <= ops * (t / interval + 1).
+       tokens pushed by time t <= ops * (t / interval + 1);
+     - C13_deliveries_le_tokens: before cancel the token channel stays open (the pacer returns only on cancel)
+       and every element made available on the output ([made s] = received from out 0 + buffered in out 0),
+       plus the one the data goroutine holds after its token receive ([hold s]), has consumed a token:
+       made + hold <= tokens taken from the token channel <= tokens pushed;
+     - C13_deliveries_rate: hence, before cancel, deliveries by time t <= ops * (t / interval + 1).
    NOT proved as theorems (checked by the correspondence oracle on every explored virtual-time schedule):
-     - that every delivery before cancel has consumed a token (deliveries <= tokens);
      - the sliding-window form "no window of length interval sees more than 2*ops + 1 + c deliveries";
      - the exact schedule floor(i/ops)*interval under maximal progress with input always available. *)
 From Coq Require Import List ZArith NArith.
 From Golem Require Import Base.Lists Pipe.Pool Pipe.Stages Pipe.PoolSteps Pipe.PoolLive Pipe.PoolSeq
-     Pipe.PoolThrottle Pipe.PoolThrottleRate.
+     Pipe.PoolThrottle Pipe.PoolThrottleRate Pipe.PoolThrottleDeliver.
 Import ListNotations.
 
 Theorem C13_throttle_prefix : forall (ops : nat) (interval : N) (icaps ocaps : list nat) (s : state),
@@ -60,3 +64,26 @@ Theorem C13_tokens_rate : forall (ops : nat) (interval : N) (icaps ocaps : list 
   (N.of_nat (tokens s) <= N.of_nat ops * (now s / interval + 1))%N.
 Proof. exact tokens_rate. Qed.
 Print Assumptions C13_tokens_rate.
+
+(* the data goroutine's control: at the loop head, waiting for a token with the element a in hand, sending a
+   (token taken), at the loop's end, after the loop, or returned *)
+Theorem C13_data_goroutine_shape : forall (ops : nat) (interval : N) (icaps ocaps : list nat) (s : state),
+  reachable (throttle_stage ops interval icaps ocaps) s -> dshape (wc (ws s 1)).
+Proof. exact dshape_reachable. Qed.
+Print Assumptions C13_data_goroutine_shape.
+
+(* before cancel the token channel is open, and deliveries (received from or buffered in out 0, plus the element
+   the data goroutine holds once it has its token) never exceed the tokens taken out of the token channel,
+   which never exceed the tokens pushed *)
+Theorem C13_deliveries_le_tokens : forall (ops : nat) (interval : N) (icaps ocaps : list nat) (s : state),
+  reachable (throttle_stage ops interval icaps ocaps) s -> cancelled s = false ->
+  cclosed (outs s 1) = false /\ (made s + hold s <= length (rcvd s 1))%nat /\ (length (rcvd s 1) <= tokens s)%nat.
+Proof. exact deliveries_le_tokens. Qed.
+Print Assumptions C13_deliveries_le_tokens.
+
+(* the rate of the deliveries before cancel, for any clock advance policy *)
+Theorem C13_deliveries_rate : forall (ops : nat) (interval : N) (icaps ocaps : list nat) (s : state),
+  reachable (throttle_stage ops interval icaps ocaps) s -> cancelled s = false -> (0 < interval)%N ->
+  (N.of_nat (made s) <= N.of_nat ops * (now s / interval + 1))%N.
+Proof. exact deliveries_rate. Qed.
+Print Assumptions C13_deliveries_rate.
